@@ -35,8 +35,13 @@ Proof.
   - inversion H; subst. destruct (IH b) as [-> ->]; auto.
 Qed.
 
+Lemma cons_eq_inv {A} (x y : A) a b : x :: a = y :: b -> x = y /\ a = b.
+Proof. intro H. inversion H. auto. Qed.
+
 Lemma blen_inj (a b : bytes) : blen a = blen b -> length a = length b.
 Proof. unfold blen. intro H. apply Nat2N.inj. exact H. Qed.
+
+Local Opaque uvarint le64.
 
 (* ------------------------------------------------------------------ primitives are prefix codes *)
 Lemma enc_string_pf a b r1 r2 :
@@ -58,7 +63,7 @@ Qed.
 Lemma enc_u64_pf i j r1 r2 :
   is_u64 i = true -> is_u64 j = true -> enc_u64 i ++ r1 = enc_u64 j ++ r2 -> i = j /\ r1 = r2.
 Proof.
-  unfold enc_u64. cbn [app]. intros Hi Hj H. injection H as H1.
+  unfold enc_u64. cbn [app]. intros Hi Hj H. apply cons_eq_inv in H as [_ H1].
   eapply le64_prefix_free; eassumption.
 Qed.
 
@@ -78,7 +83,7 @@ Qed.
 
 Lemma enc_bool_pf a b r1 r2 : enc_bool a ++ r1 = enc_bool b ++ r2 -> a = b /\ r1 = r2.
 Proof.
-  unfold enc_bool. simpl. intro H. inversion H as [[H1 H2]].
+  unfold enc_bool. simpl. intro H. apply cons_eq_inv in H as [_ H]. apply cons_eq_inv in H as [H1 H2].
   split; [|exact H2]. destruct a, b; try reflexivity; discriminate.
 Qed.
 
@@ -173,12 +178,12 @@ Definition enc_entry (kv : ser * ser) : bytes := enc_ser (fst kv) ++ enc_ser (sn
 
 Lemma enc_ser_array l : enc_ser (SArray l) = enc_array_hdr (length l) ++ flat_map enc_ser l.
 Proof.
-  simpl. f_equal. f_equal. induction l as [|x l IH]; simpl; [reflexivity|]. rewrite IH. reflexivity.
+  simpl. apply f_equal. apply f_equal. induction l as [|x l IH]; simpl; [reflexivity|]. rewrite IH. reflexivity.
 Qed.
 
 Lemma enc_ser_map l : enc_ser (SMap l) = enc_map_hdr (length l) ++ flat_map enc_entry l.
 Proof.
-  simpl. f_equal. f_equal. induction l as [|[k x] l IH]; simpl; [reflexivity|].
+  simpl. apply f_equal. apply f_equal. induction l as [|[k x] l IH]; simpl; [reflexivity|].
   rewrite IH. unfold enc_entry. simpl. rewrite <- app_assoc. reflexivity.
 Qed.
 
@@ -201,7 +206,6 @@ Proof.
     + intro H. inversion H as [|? ? [H1 H2] H3]; subst. simpl in *. auto.
 Qed.
 
-Local Opaque uvarint le64.
 
 Ltac tagmismatch H :=
   exfalso; repeat (rewrite ?enc_ser_array, ?enc_ser_map in H);
